@@ -2634,6 +2634,7 @@ func (p *parser) parseLambdaExpr(allowTuple, allowCmd, allowRangeExpr bool) (x a
 		var rarrow = p.pos
 		var rhs []ast.Expr
 		var body *ast.BlockStmt
+		var last token.Pos // end of the lambda expression
 		var lhsHasParen, rhsHasParen bool
 		p.next()
 		switch p.tok {
@@ -2648,13 +2649,14 @@ func (p *parser) parseLambdaExpr(allowTuple, allowCmd, allowRangeExpr bool) (x a
 				}
 				p.next()
 			}
-			p.expect(token.RPAREN)
+			last = p.expect(token.RPAREN) + 1
 		case token.LBRACE: // {
 			p.openLabelScope() // a lambda body is a function body: labels are local to it
 			body = p.parseBlockStmt()
 			p.closeLabelScope()
 		default:
 			rhs = []ast.Expr{p.parseExpr(false, false, false)}
+			last = rhs[0].End()
 		}
 		var lhs []*ast.Ident
 		if x != nil {
@@ -2696,7 +2698,7 @@ func (p *parser) parseLambdaExpr(allowTuple, allowCmd, allowRangeExpr bool) (x a
 		}
 		return &ast.LambdaExpr{
 			First:       first,
-			Last:        p.pos,
+			Last:        last,
 			Lhs:         lhs,
 			Rarrow:      rarrow,
 			Rhs:         rhs,
